@@ -77,6 +77,28 @@ pub mod verif_hooks {
     /// Reset the counter of this thread.
     pub fn reset() {
         STEPS.with(|s| s.set(0));
+        LIST_ENDS.with(|l| l.borrow_mut().clear());
+    }
+
+    std::thread_local! {
+        static LIST_ENDS: core::cell::RefCell<Vec<usize>> = const { core::cell::RefCell::new(Vec::new()) };
+    }
+    /// `parse_comma_separated` finished a list with the cursor at token index `index`.
+    pub fn list_end(index: usize) {
+        LIST_ENDS.with(|l| l.borrow_mut().push(index));
+    }
+    /// Token indexes at which comma-separated lists ended since the last [`reset`] (lists
+    /// parsed inside an abandoned `maybe_parse` attempt are dropped).
+    pub fn list_ends() -> Vec<usize> {
+        LIST_ENDS.with(|l| l.borrow().clone())
+    }
+    /// Number of list ends recorded so far (taken by `maybe_parse` before an attempt).
+    pub fn list_mark() -> usize {
+        LIST_ENDS.with(|l| l.borrow().len())
+    }
+    /// Forget the list ends recorded after `mark` (the attempt was abandoned).
+    pub fn list_truncate(mark: usize) {
+        LIST_ENDS.with(|l| l.borrow_mut().truncate(mark));
     }
 }
 
@@ -3522,6 +3544,8 @@ impl<'a> Parser<'a> {
                 break;
             }
         }
+        #[cfg(sqlparser_verif)]
+        verif_hooks::list_end(self.index);
         Ok(values)
     }
 
@@ -3583,12 +3607,16 @@ impl<'a> Parser<'a> {
         F: FnMut(&mut Parser) -> Result<T, ParserError>,
     {
         let index = self.index;
+        #[cfg(sqlparser_verif)]
+        let list_mark = verif_hooks::list_mark();
         match f(self) {
             Ok(t) => Ok(Some(t)),
             // Running out of recursion depth is not a syntax mismatch: do not backtrack on it.
             Err(ParserError::RecursionLimitExceeded) => Err(ParserError::RecursionLimitExceeded),
             Err(_) => {
                 self.index = index;
+                #[cfg(sqlparser_verif)]
+                verif_hooks::list_truncate(list_mark);
                 Ok(None)
             }
         }
